@@ -29,6 +29,14 @@ type World struct {
 	heapSort map[string]Sort // heap name -> array sort
 	uninterp map[string]string // smt name -> "(argsorts) ressort"
 	exemptFID map[int]bool     // field ids never subject to frame conditions
+	guards    map[int]*boundGuard // field id -> guard
+	fieldAssume map[int]*boundGuard
+}
+
+type boundGuard struct {
+	g      *Guard
+	structT types.Type
+	pkg    *types.Package
 }
 
 type GhostField struct {
@@ -71,7 +79,26 @@ func NewWorld() *World {
 		heapSort: map[string]Sort{},
 		uninterp: map[string]string{},
 		exemptFID: map[int]bool{},
+		guards:    map[int]*boundGuard{},
+		fieldAssume: map[int]*boundGuard{},
 	}
+}
+
+// overlayTypes: byte-array types that are only ever used as the storage of one
+// struct type (metaBuf for metaPage). They are modelled as that struct laid
+// over element 0 (key: "pkgpath.Name"). Filled once while loading contracts.
+var overlayTypes = map[string]types.Type{}
+
+func overlayOf(t types.Type) (types.Type, bool) {
+	if len(overlayTypes) == 0 {
+		return nil, false
+	}
+	n, ok := t.(*types.Named)
+	if !ok || n.Obj().Pkg() == nil {
+		return nil, false
+	}
+	ov, ok := overlayTypes[n.Obj().Pkg().Path()+"."+n.Obj().Name()]
+	return ov, ok
 }
 
 // opaqueLE reports little-endian fixed-width cells from go-bin (and pgID) that
@@ -111,6 +138,9 @@ func opaqueLE(t types.Type) (int, bool) {
 func (w *World) sortOf(t types.Type) Sort {
 	if n, ok := opaqueLE(t); ok {
 		return SBV(n)
+	}
+	if ov, ok := overlayOf(t); ok {
+		return w.sortOf(ov)
 	}
 	switch u := t.Underlying().(type) {
 	case *types.Basic:
@@ -333,6 +363,9 @@ func (w *World) zero(t types.Type) *Term {
 	b := w.b
 	if n, ok := opaqueLE(t); ok {
 		return b.BV(0, n)
+	}
+	if ov, ok := overlayOf(t); ok {
+		return w.zero(ov)
 	}
 	switch u := t.Underlying().(type) {
 	case *types.Basic:
